@@ -386,7 +386,8 @@ func GenSession(rd *core.Rand, dialect string, thorough bool) (*Script, *sessMet
 			}
 		}
 	}
-	if rd.Chance(8) {
+	// acra-server -d: debug level and the tokenizer's verbose errors come together
+	if sc.Level == "debug" && rd.Chance(15) {
 		sc.TokVerbose = true
 	}
 	return sc, meta
